@@ -39,6 +39,8 @@ TFrame == /\ IsEvent("Frame")
              /\ n % 4 = 0 /\ n >= 4 /\ n <= (IF E.mode = "C" THEN 1020 ELSE 252)
              /\ E.bytes[1] = (IF E.mode = "C" THEN n \div 4 ELSE n)
              /\ E.consumed = n /\ E.back = E.kind
+          \* C01 for text that is not ASCII: a text that fits its field comes back unchanged and the packet re-encodes to the frame
+          /\ (E.fits => (E.back_text = E.text /\ E.reenc))
 \* C11: decoding stops at the first NUL
 TFieldDec == /\ IsEvent("FieldDec") /\ Matches(CpDecode(FirstNul(E.field)), E.text)
 \* IS_MSO: the whole message is one LFS string (a code page selected in the name stays in force in the text); the decoded
